@@ -49,6 +49,25 @@ def gen_nets(ctx):
         out.append({"d": d, "rows": rows, "kind": kind})
     for d in (4, 5):
         out.append({"d": d, "rows": base_net(d), "kind": "unsupported"})
+    # strongly bent but VALID triangles whose three corners are in clockwise order (det J > 0 on a 12 x 12 grid with a margin; the
+    # model decides exactly): a shortcut that looks at the corners only (seed c13-6) is wrong on these.  Three pinned instances,
+    # then a random search over lattice nets
+    bent = [[[F(0), F(1, 2), F(1), F(3), F(5, 4), F(2)], [F(0), F(-1, 2), F(0), F(5), F(1), F(0)]],
+            [[F(-4), F(-1), F(-4), F(6), F(-4), F(-6)], [F(4), F(3), F(3), F(2), F(-2), F(-3)]],
+            [[F(5), F(0), F(-1), F(1), F(-1), F(-4)], [F(2), F(1), F(-1), F(-5), F(-2), F(-1)]]]
+    want, tries = (5 if ctx.quick() else 40), 0
+    while len(bent) < want and tries < (3000 if ctx.quick() else 60000):
+        tries += 1
+        rows = [[F(rng.randint(-6, 6)) for _ in range(6)] for _ in range(2)]
+        c0, c1, c2 = [(rows[0][i], rows[1][i]) for i in (0, 2, 5)]
+        if (c1[0] - c0[0]) * (c2[1] - c0[1]) - (c1[1] - c0[1]) * (c2[0] - c0[0]) > 0:
+            continue
+        if any(det_j_exact(2, rows, F(i, 4), F(j, 4)) <= 0 for i in range(5) for j in range(5 - i)):
+            continue
+        if all(det_j_exact(2, rows, F(i, 12), F(j, 12)) >= F(1, 8) for i in range(13) for j in range(13 - i)):
+            bent.append(rows)
+    for rows in bent:
+        out.append({"d": 2, "rows": rows, "kind": "bent-clockwise-corners"})
     return out
 
 
@@ -86,6 +105,41 @@ def det_j_exact(d, rows, s, t):
     return e(dnet(rows[0], "s")) * e(dnet(rows[1], "t")) - e(dnet(rows[0], "t")) * e(dnet(rows[1], "s"))
 
 
+def quadratic_positive_certificate(rows, depth=4):
+    """EXACT certificate that det J > 0 on the whole closed reference triangle of a quadratic triangle: x_s, x_t, y_s, y_t are
+    linear in (s, t); on a sub-triangle with corners p0, p1, p2 the quadratic det J = x_s y_t - x_t y_s has the Bernstein
+    coefficients a_i b_i (corners) and (a_i b_j + a_j b_i) / 2 (edges) of the products of the corner values; if all six are
+    positive det J is positive there.  The reference triangle is split into four, recursively.  Returns True / None (undecided)"""
+    def lin(v, which):
+        # corner values (at (0,0), (1,0), (0,1)) of d/ds (which = 0) or d/dt (which = 1) of the quadratic with net v
+        idx = {(0, 0): 0, (1, 0): 1, (2, 0): 2, (0, 1): 3, (1, 1): 4, (0, 2): 5}
+        out = []
+        for (j, k) in ((0, 0), (1, 0), (0, 1)):
+            a0 = v[idx[(j, k)]]
+            out.append(2 * ((v[idx[(j + 1, k)]] if which == 0 else v[idx[(j, k + 1)]]) - a0))
+        return out
+    fs = [lin(rows[0], 0), lin(rows[0], 1), lin(rows[1], 0), lin(rows[1], 1)]      # xs, xt, ys, yt at the three corners
+    at = lambda f, p: f[0] + (f[1] - f[0]) * p[0] + (f[2] - f[0]) * p[1]
+
+    def ok(tri_, dep):
+        xs, xt, ys, yt = [[at(f, p) for p in tri_] for f in fs]
+        coef = []
+        for i in range(3):
+            coef.append(xs[i] * yt[i] - xt[i] * ys[i])
+        for i, j in ((0, 1), (0, 2), (1, 2)):
+            coef.append((xs[i] * yt[j] + xs[j] * yt[i] - xt[i] * ys[j] - xt[j] * ys[i]) / 2)
+        if all(x > 0 for x in coef):
+            return True
+        if dep == 0 or any(x <= 0 for x in coef[:3]):
+            return None
+        p0, p1, p2 = tri_
+        m01 = ((p0[0] + p1[0]) / 2, (p0[1] + p1[1]) / 2)
+        m02 = ((p0[0] + p2[0]) / 2, (p0[1] + p2[1]) / 2)
+        m12 = ((p1[0] + p2[0]) / 2, (p1[1] + p2[1]) / 2)
+        return True if all(ok(t_, dep - 1) for t_ in ((p0, m01, m02), (m01, p1, m12), (m02, m12, p2), (m01, m12, m02))) else None
+    return ok(((F(0), F(0)), (F(1), F(0)), (F(0), F(1))), depth)
+
+
 def judge_valid(c, op, cfg, raw):
     """soundness: a reported-valid triangle has no grid point with non-positive Jacobian (exact)"""
     d = c["d"]
@@ -106,6 +160,10 @@ def judge_valid(c, op, cfg, raw):
             worst = v if worst is None or v < worst else worst
     if verdict and worst <= 0:
         return "reported valid but det J = %s <= 0 at a grid point" % float(worst)
+    # completeness with a clear margin (quadratics: exact certificate): a triangle whose Jacobian is positive everywhere, by at least
+    # 1/8 on the grid, must not be reported invalid
+    if (not verdict) and d == 2 and worst >= F(1, 8) and quadratic_positive_certificate(c["rows"]):
+        return "reported invalid, but det J > 0 on the whole closed triangle (exact Bernstein certificate; at least %s on the grid)" % float(worst)
     return None
 
 
